@@ -133,6 +133,8 @@ class Ctx:
             from . import hygiene
 
             hygiene.after_run(self)
+        if self.shortfalls:
+            apply_known(self)  # a listed known finding is not "the more specific answer" that excuses a shortfall
         if self.shortfalls and not any(o.status == "violation" for o in self.obs):
             raise AnalysisError("; ".join(self.shortfalls))
 
@@ -161,10 +163,21 @@ def apply_known(ctx: Ctx) -> None:
         if o.status != "violation":
             continue
         for e in known:
+            same_fn = e.get("function") == o.function
+            if not same_fn:
+                # the listed construct was moved, unchanged, into a helper the pinned tree does not have (an extracted function nested in
+                # the same outer function): still the listed finding, not a new one
+                try:
+                    from .inline import baseline
+
+                    outer = e.get("function", "").rsplit(".", 1)[0]
+                    same_fn = bool(outer) and o.function.startswith(outer + ".") and (o.file, o.function) not in baseline() and bool(baseline())
+                except Exception:
+                    same_fn = False
             if (
                 e.get("rule") == o.rule
                 and e.get("file") == o.file
-                and e.get("function") == o.function
+                and same_fn
                 and " ".join(e.get("construct", "").split()) == " ".join(o.construct.split())
             ):
                 o.status = "known"
